@@ -188,7 +188,14 @@ class World:
                     groups[k].append(lp)
         return groups
 
-    def canonical(self, reg, word=()):
+    def canonical_variant(self, reg, word=(), rot=None, numtype=None, ctor=None):
+        """the same region built with another start vertex / numeric type / constructor"""
+        if numtype is None:
+            return self.canonical(reg, word, rot=rot, ctor=ctor)
+        other = World(self.st, self.real.clone(numtype=numtype), wlevel=0)
+        return other.canonical(reg, word, rot=rot, ctor=ctor)
+
+    def canonical(self, reg, word=(), rot=None, ctor=None):
         """object for region `reg` built WITHOUT operators (direct constructors)"""
         sp = self.sp
         if reg == 0:
@@ -200,7 +207,7 @@ class World:
         T = frame_affine(word) if word else None
         parts = []
         for group in self.components(reg):
-            simples = [self.simple_from_loop(lp, T=T) for lp in group]
+            simples = [self.simple_from_loop(lp, T=T, rot=rot, ctor=ctor) for lp in group]
             parts.append(simples[0] if len(simples) == 1 else sp.ConnectedShape(simples))
         return parts[0] if len(parts) == 1 else sp.DisjointShape(parts)
 
@@ -275,7 +282,7 @@ class World:
         )
 
     # ------------------------------------------------------------ comparison
-    def compare(self, obj, rec, *, what="object", props=None, deep=True, tags=None):
+    def compare(self, obj, rec, *, what="object", props=None, deep=True, tags=None, exact=None):
         """compare a real object with the specification record [reg, frame, splits, segk]
         -> list of Failure.  `tags` maps assertion family -> property id."""
         tg = {"region": "C01", "kind": "C06", "loops": "C06", "moment": "C04", "type": "C13"}
@@ -322,7 +329,7 @@ class World:
                     gotv = sorted(norm_cycle(c) for c in cyc)
                     if gotv != wantv:
                         fails.append(Failure(tg.get("vertices", tg["loops"]), "vertex cycles differ (segmentation)", where=what, reg=reg, expected=wantv, got=gotv))
-        fails.extend(self.compare_moments(obj, reg, word, what=what, tags=tg))
+        fails.extend(self.compare_moments(obj, reg, word, what=what, tags=tg, exact=exact))
         return fails
 
     def exact_mode(self, word=()):
@@ -332,13 +339,13 @@ class World:
             and all(g in EXACT_GENS for g in word)
         )
 
-    def compare_moments(self, obj, reg, word=(), *, what="object", orders=((0, 0), (1, 0), (0, 1), (2, 0), (1, 1), (0, 2)), tags=None):
+    def compare_moments(self, obj, reg, word=(), *, what="object", orders=((0, 0), (1, 0), (0, 1), (2, 0), (1, 1), (0, 2)), tags=None, exact=None):
         tg = {"moment": "C04", "type": "C13"}
         tg.update(tags or {})
         sp = self.sp
         T = frame_affine(word) if word else Affine()
         fails = []
-        exact = self.exact_mode(word)
+        exact = self.exact_mode(word) if exact is None else (exact and self.exact_mode(word))
         deg = self.real.deg
         for a, b in orders:
             exp = self.real.moment(reg, a, b, T)
